@@ -777,8 +777,10 @@ def drive_accepted(prog, text, rseed):
 
     imm_bits = [rng.random() < 0.3 for _ in range(5)]
     other_bits = [rng.random() < 0.5 for _ in range(4)] if rng.random() < 0.3 else [False]
-    run = impl.Run(text, ids="test", answers=answers, imm=lambda k: imm_bits[k % 5],
-                   imm_other=lambda k: other_bits[k % len(other_bits)])
+    # completions from inside the notification only for the first services: an execution engine that answers every
+    # announcement of a loop that never ends re-entrantly nests without bound by itself
+    run = impl.Run(text, ids="test", answers=answers, imm=lambda k: k < 25 and imm_bits[k % 5],
+                   imm_other=lambda k: k < 25 and other_bits[k % len(other_bits)])
     rec["ctor_exc"] = run.ctor_exc
     if run.s is None:
         return rec
@@ -803,6 +805,7 @@ def drive_accepted(prog, text, rseed):
                 tail += 1
         rec["service_free_tail"] = tail
     rec["finished"] = bool(run.calls and run.calls[-1].get("final_marking"))
+    rec["inner_steps"] = sum(1 for c in run.calls for e in c["out"] if e[0] == "INV" and e[1] == "ss" and e[3] == "Inner_step")
     rec["pending"] = len(run.pending)
     rec["steps"] = n
     rec["queries"] = nq[0]
@@ -826,7 +829,40 @@ def job_run_accepted(args):
                 prog, info = cands[rng.randrange(len(cands))]
                 label = "fault:" + info["cls"]
         elif mode == "near":
-            prog, label = near_valid(prog, rng)
+            prog, label = near_valid(prog, rng, seed)
+        elif mode == "ploop_limit":
+            # a parallel loop whose limit is read from a service result, first thing in the start task: the execution
+            # engine delivers the number as it likes (0, negative, as a float)
+            names = {x["name"] for x in prog["structs"]} | {x["name"] for x in prog["tasks"]}
+            if "LimitHolder" not in names and "limitWorker" not in names:
+                prog["structs"].append({"name": "LimitHolder", "attrs": [["count", "number"]]})
+                prog["tasks"].append({"name": "limitWorker", "ins": [], "outs": [],
+                                      "body": [{"k": "svc", "name": "Limit_work", "ins": [], "outs": []}]})
+                if prog.get("order") is not None:
+                    prog["order"] += [["struct", len(prog["structs"]) - 1], ["task", len(prog["tasks"]) - 1]]
+                t = next(x for x in prog["tasks"] if x["name"] == vgen.START_TASK)
+                t["body"][0:0] = [{"k": "svc", "name": "Limit_source", "ins": [], "outs": [["limitHolder", "LimitHolder"]]},
+                                  {"k": "ploop", "var": "zq", "limit": ["limitHolder", "count"],
+                                   "call": {"k": "call", "name": "limitWorker", "ins": [], "outs": []}}]
+            label = "ploop_limit"
+        elif mode == "nested_loops":
+            # counting loops of one task nested in each other with the SAME counting variable (legal shadowing), the
+            # inner one directly, inside a Condition or inside a While loop of the outer one's body
+            # (first thing in the start task: executed exactly once per run, so the number of inner steps is known)
+            t = next(x for x in prog["tasks"] if x["name"] == vgen.START_TASK)
+            a, b = rng.randint(1, 3), rng.randint(1, 3)
+            nested = [a, b]
+            inner = {"k": "cloop", "var": "i", "limit": b, "body": [{"k": "svc", "name": "Inner_step", "ins": [], "outs": []}]}
+            wrap = rng.choice(["direct", "direct", "cond"])
+            if wrap == "cond":
+                inner = {"k": "cond", "e": True, "passed": [inner], "failed": None}
+            body = [inner]
+            if rng.random() < 0.5:
+                body.insert(0, {"k": "svc", "name": "Outer_step", "ins": [], "outs": []})
+            if rng.random() < 0.5:
+                body.append({"k": "svc", "name": "Outer_done", "ins": [], "outs": []})
+            t["body"].insert(0, {"k": "cloop", "var": "i", "limit": a, "body": body})
+            label = "nested_loops"
         elif mode == "shadow":
             # the same variable name with another struct type in a second task, used there with the operators that
             # fit the first task's type: must be rejected; if it is accepted it is driven like any accepted program
@@ -869,6 +905,8 @@ def job_run_accepted(args):
                     # without a single service start: a loop that never ends and never waits (e.g. `... Or true`)
                     out["k9_constant_guard"] = True
         rec.update(out)
+        if mode == "nested_loops":
+            rec["nested"] = nested
         signal.alarm(0)
         return rec
     except CaseTimeout:
@@ -889,11 +927,12 @@ def falsify(v):
     return v
 
 
-def near_valid(prog, rng):
+def near_valid(prog, rng, which=None):
     """near-valid variants named by the property: recursion, zero limits, undeclared limit variables"""
     p = copy.deepcopy(prog)
-    kind = rng.choice(["self_recursion", "mutual_recursion", "zero_limit", "undeclared_limit", "string_condition",
-                       "recursion_in_parallel_loop", "recursion_in_parallel"])
+    kinds = ["self_recursion", "mutual_recursion", "zero_limit", "undeclared_limit", "string_condition",
+             "recursion_in_parallel_loop", "recursion_in_parallel", "mutual_recursion_in_parallel_loop"]
+    kind = rng.choice(kinds) if which is None else kinds[(which // 10) % len(kinds)]
     tasks = p["tasks"]
     if kind == "self_recursion":
         t = rng.choice(tasks)
@@ -905,6 +944,11 @@ def near_valid(prog, rng):
     elif kind == "recursion_in_parallel_loop":
         t = rng.choice([x for x in tasks if not x.get("ins")] or tasks)
         t["body"].append({"k": "ploop", "var": "zq", "limit": 1, "call": {"k": "call", "name": t["name"], "ins": [], "outs": []}})
+    elif kind == "mutual_recursion_in_parallel_loop" and len(tasks) >= 2:
+        a, b = rng.sample([x for x in tasks if not x.get("ins")] or tasks, 2) if len([x for x in tasks if not x.get("ins")]) >= 2 else rng.sample(tasks, 2)
+        if not a.get("ins") and not b.get("ins"):
+            a["body"].append({"k": "ploop", "var": "zq", "limit": rng.randint(1, 2), "call": {"k": "call", "name": b["name"], "ins": [], "outs": []}})
+            b["body"].insert(rng.randint(0, len(b["body"])), {"k": "call", "name": a["name"], "ins": [], "outs": []})
     elif kind == "recursion_in_parallel":
         t = rng.choice([x for x in tasks if not x.get("ins")] or tasks)
         t["body"].append({"k": "par", "calls": [{"k": "call", "name": t["name"], "ins": [], "outs": []}]})
@@ -1009,11 +1053,11 @@ def _run(ctx, pool, res):
     n_wf = {"C11": 220, "C16": 60, "C10": 40, "C19": 40, "C09": 0}[prop] * (1 if quick else 10)
     n_fault = {"C10": 200, "C19": 200, "C16": 60, "C11": 30, "C09": 0}[prop] * (1 if quick else 10)
     n_text = {"C16": 220, "C10": 0, "C11": 0, "C19": 0, "C09": 0}[prop] * (1 if quick else 10)
-    n_run = {"C09": 160}.get(prop, 0) * (1 if quick else 10)
+    n_run = {"C09": 320}.get(prop, 0) * (1 if quick else 10)
     wf_jobs = [(seed * 7919 + i, size) for i in range(n_wf)]
     fault_jobs = [(seed * 104729 + i, size, 4) for i in range(n_fault)] + [(seed * 611953 + i, size, -1) for i in range(max(40, n_fault // 4) if n_fault else 0)]
     text_jobs = [(seed * 1299709 + i, size, 6) for i in range(n_text)]
-    run_jobs = [(seed * 15485863 + i, size, ["wf", "wf", "fault", "near", "wf", "wf", "fault", "shadow"][i % 8]) for i in range(n_run)]
+    run_jobs = [(seed * 15485863 + i, size, ["wf", "nested_loops", "fault", "near", "wf", "shadow", "fault", "shadow", "wf", "ploop_limit"][i % 10]) for i in range(n_run)]
     wf_res = pool.map(job_wf, wf_jobs, chunksize=2) if wf_jobs else []
     fault_res = pool.map(job_faults, fault_jobs, chunksize=2) if fault_jobs else []
     text_res = pool.map(job_text, text_jobs, chunksize=2) if text_jobs else []
@@ -1180,6 +1224,11 @@ def _run(ctx, pool, res):
         nontrivial.add(key)
         if r.get("shapes"):
             run_hist["known_ploop_shape"] = run_hist.get("known_ploop_shape", 0) + 1
+        if r.get("nested") and not r.get("run_exc") and not r.get("k9_depth_only") and \
+                (r["inner_steps"] > r["nested"][0] * r["nested"][1] or (r.get("finished") and r["inner_steps"] != r["nested"][0] * r["nested"][1])):
+            a_, b_ = r["nested"]
+            add_violation(res, seen, "C09", "nested_loops_iterations", "accepted program: a counting loop to %d around a counting loop to %d with the same counting variable started the inner service %d times (%s), expected %d: the order %s"
+                          % (a_, b_, r["inner_steps"], "run finished" if r.get("finished") else "run cut off", a_ * b_, "is not executed as written" if r.get("finished") else "does not complete"), r["text"], {"label": r["label"], "nested": r["nested"]})
         if r.get("call_cycle"):
             add_violation(res, seen, "C09", "accepted_recursive_program", "a program whose tasks call each other recursively (%s) is accepted: the scheduler cannot unfold it" % r["label"], r["text"], {"label": r["label"], "prog": r.get("prog")})
         elif r.get("ctor_exc"):
